@@ -22,8 +22,9 @@ LEVEL_TEXT = ('Decides clauses C03-a..h: in every arm of Response::send the summ
               'ames are redirected to the standard store. The 204/stream decisions of complete() are decided on every path: from the entry no path reaches the exit w'
               'ithout the removal of Content-Length (resp. of the body) unless it takes an edge establishing that the status is not 204 (resp. the content is not a s'
               'tream) or that there is nothing to remove, so an arm matched before the status is looked at cannot answer for a 204. C03-i: the chunked framing of a s'
-              'treamed body (size line = length of the finished message, CRLFs, terminal zero chunk: the C17-a clauses) re-evaluated. Decides these clauses, not byte'
-              '-level well-formedness for all operation histories.')
+              'treamed body (size line = length of the finished message, CRLFs, terminal zero chunk: the C17-a clauses) re-evaluated. C03-d: the Content-Length call '
+              'lies on the path of the body store (it dominates or post-dominates it), not under a condition of its own. Decides these clauses, not byte-level well-f'
+              'ormedness for all operation histories.')
 
 HDR = r"^ohkami::response::headers::Headers$"
 
@@ -543,6 +544,13 @@ def c03d(ck, prog):
                 if re.search(r"itoa\(len\(", d):
                     good = d
             ok = good is not None and bool(ct)
+            if ok:
+                # ... on the store's own path (not under a condition the store is not under), and of the bytes that are stored
+                mine = [c for c in cl if c.fn is f and re.search(r"itoa\(len\(", decision.describe_deep(f, c.args[1], 6))]
+                if mine:
+                    on_path = [c for c in mine if f.dominates(c.bb, bi) or f.postdominates(c.bb, bi)]
+                    if not on_path:
+                        ok, good = False, "a Content-Length that is set only on some of the paths that store the body"
             ck.ob(R, key, ok, f.loc(st.get("sp")),
                   "" if ok else "%s stores Content::Payload(%s) into a response without setting Content-Length from the length of those bytes%s: the header keeps its default \"0\" and the client cannot frame the body"
                   % (f.key, bytes_desc[:60], "" if ct else " (and no Content-Type)"), how="ContentLength(%s) + ContentType in the same function" % (good or "")[:60])
